@@ -37,8 +37,13 @@ def lexrun(seed, tier, log=print, extra_modes=('p',)):
     key = 'lexrun-%s-%s-%s-%s' % (P.repo_tree_hash(), verif_hash(), seed, tier)
     os.makedirs(CACHE, exist_ok=True)
     cpath = os.path.join(CACHE, key + '.pkl')
-    if os.path.exists(cpath):
+    marker = os.path.join(P.WORK, 'stage-%s.key' % tier)
+    if os.path.exists(cpath) and os.path.exists(marker) and open(marker).read().strip() == key:
+        # the cached streams are only reused when the binaries on disk (capture, refmatch, reflex, zoo of this tier)
+        # are the ones this stage built; the harness is rebuilt anyway (a no-op when /repo has not changed since)
         log('lexrun: reusing cached stage %s' % key)
+        P.build_harness()
+        P.build_lean()
         r = pickle.load(open(cpath, 'rb'))
         r['cached'] = True
         return r
@@ -126,6 +131,8 @@ def lexrun(seed, tier, log=print, extra_modes=('p',)):
              stats=stats, builds={c: dict(ok=b['ok'], secs=b['secs'], stderr=b['stderr'][-4000:]) for c, b in builds.items()},
              reqs=reqs, preqs=preqs, treqs=treqs, pfx=pfx, skipped_large=skipped_large, zoo_out=zoo_out, lean=lean, wall=time.time() - t0, cached=False)
     pickle.dump(r, open(cpath, 'wb'))
+    os.makedirs(P.WORK, exist_ok=True)
+    open(marker, 'w').write(key)
     return r
 
 
